@@ -12,7 +12,12 @@
    and TLC judges every statement line with the operators of Statements: which rows are selected (three-valued FROM /
    WHERE / account pattern), account order (type then name), every account once, per-account sums, register in ledger
    order, running balance = prefix sums, PRINT = the directives whose FROM expression is TRUE, in order.
-   One TLC step per line; a rejected line is reported with the first failing clause and the run continues. *)
+   One TLC step per line; a rejected line is reported with the first failing clause and the run continues.
+
+   Provenance (sessions, see StatementsSession): the statement lines of a ledger are recorded on ONE shell / connection
+   that executes them one after the other (in random order, some of them repeatedly); every "ledger" / "dirs" line is
+   obtained on a connection of its own that executes nothing else.  A statement is judged against the table of ITS
+   OWN clauses, whatever the connection executed before: a result that depends on the history is rejected here. *)
 EXTENDS Statements, Json, IOUtils
 
 TraceLog == ndJsonDeserialize(IOEnv.TRACE_FILE)
